@@ -217,6 +217,7 @@ class Rewriter:
         H, _ = self.next_loop_head(inner, opt_ty, span, none_b, on_some)
         blk["term"] = {"k": "goto", "target": H}
         self.splice_closures({cbody.fn: cbody})
+        self.w.inlined[cbody.fn] = True
         return True
 
     def is_pipeline(self, local, defs):
@@ -299,6 +300,51 @@ class Rewriter:
         blk["term"] = {"k": "goto", "target": na}
         return True
 
+    def rewrite_value_map(self, blk, kind):
+        """Option::map(o, f) / Result::map(r, f): a match on the variant with f applied to the payload of Some / Ok"""
+        t = blk["term"]
+        span = t.get("span")
+        D, T = t["dest"], t.get("target")
+        if T is None or len(t["args"]) != 2:
+            return False
+        cbody = self.closure_body(t["args"][1])
+        if cbody is None:
+            return False
+        adt = "core::option::Option" if kind == "option" else "core::result::Result"
+        hit, hidx, miss, midx = ("Some", 1, "None", 0) if kind == "option" else ("Ok", 0, "Err", 1)
+        src = self.stash(blk, t["args"][0], span)
+        clo = self.stash(blk, t["args"][1], span)
+        d = self.new_local("isize", None, "int")
+        blk["stmts"].append(self.assign(d, {"k": "discr", "place": {"local": src, "proj": []}, "adt": adt, "ty": self.j["locals"][src]["ty"]}, span))
+        # miss arm: None stays None, Err(e) stays Err(e)
+        if kind == "option":
+            miss_rv = self.none()
+        else:
+            miss_rv = {"k": "aggr", "adt": adt, "variant": "Err", "fields": [self.mv(src, [{"downcast": "Err", "vidx": 1}, {"field": "0", "of": adt, "idx": 0}])], "names": ["0"], "is_enum": True}
+        miss_b = self.new_block([{"k": "assign", "place": copy.deepcopy(D), "rv": miss_rv, "span": span, "exp": False}], {"k": "goto", "target": T})
+        item_ty = cbody.locals[2]["ty"] if len(cbody.locals) > 2 else "?"
+        v = self.new_local(item_ty, None, "adt")
+        y = self.new_local(cbody.locals[0]["ty"], cbody.locals[0]["adt"], cbody.locals[0]["tk"])
+        env_ty = cbody.locals[1]["ty"]
+        stm = [self.assign(v, self.use(self.mv(src, [{"downcast": hit, "vidx": hidx}, {"field": "0", "of": adt, "idx": 0}])), span)]
+        if env_ty.startswith("&mut "):
+            cr = self.new_local(env_ty, None, "refmut")
+            stm.append(self.assign(cr, self.ref(clo, True), span))
+            env_op = self.mv(cr)
+        elif env_ty.startswith("&"):
+            cr = self.new_local(env_ty, None, "ref")
+            stm.append(self.assign(cr, self.ref(clo, False), span))
+            env_op = self.mv(cr)
+        else:
+            env_op = self.mv(clo)
+        hit_rv = {"k": "aggr", "adt": adt, "variant": hit, "fields": [self.mv(y)], "names": ["0"], "is_enum": True}
+        fin = self.new_block([{"k": "assign", "place": copy.deepcopy(D), "rv": hit_rv, "span": span, "exp": False}], {"k": "goto", "target": T})
+        hit_b = self.new_block(stm, self.call(cbody.fn, [env_op, self.mv(v)], y, fin, span, krate=cbody.crate.name))
+        blk["term"] = {"k": "switch", "discr": self.mv(d), "arms": [[midx, miss_b], [hidx, hit_b]], "otherwise": miss_b, "span": span}
+        self.splice_closures({cbody.fn: cbody})
+        self.w.inlined[cbody.fn] = True
+        return True
+
     def splice_closures(self, helpers):
         self.sync()
         counter = [self.w._ds_counter]
@@ -331,6 +377,9 @@ class Rewriter:
                     ok = self.rewrite_extend(blk, defs)
                 elif c == ITER + "::unzip":
                     ok = self.rewrite_unzip(blk, defs)
+                elif c in ("core::option::Option::map", "core::result::Result::map") and c not in self.w._baseline_adaptors.get(self.b.fn, ()):
+                    # only where the combinator was introduced after the rules were confirmed (inert on the confirmed tree)
+                    ok = self.rewrite_value_map(blk, "option" if "Option" in c else "result")
                 if ok:
                     progress = True
                     self.changed += 1
@@ -345,12 +394,22 @@ class Rewriter:
 def apply(world):
     world._ds_counter = 500000
     world.desugared = {}
+    world._baseline_adaptors = {}
+    import json
+    import os
+    if os.path.exists(inline.ITEMS):
+        with open(inline.ITEMS) as f:
+            world._baseline_adaptors = json.load(f).get("adaptor_calls", {})
+    members = set(world.crates)
     for b in list(world.all_bodies_raw()):
         if b.promoted is not None:
             continue
         # cheap pre-filter
         names = [_callee(bl["term"]) for bl in b.blocks if bl["term"] and bl["term"]["k"] == "call"]
-        if not any(("adapters::filter::Filter as" in n or "adapters::map::Map as" in n or n.endswith("::extend") or n.endswith("Iterator::unzip")) for n in names):
+        if not any(("adapters::filter::Filter as" in n or "adapters::map::Map as" in n or n.endswith("::extend") or n.endswith("Iterator::unzip")
+                    or n in ("core::option::Option::map", "core::result::Result::map")) for n in names):
+            continue
+        if b.fn.split("::")[0].lstrip("<") not in members and not any(b.fn.startswith("<" + m) for m in members):
             continue
         n = Rewriter(world, b).run()
         if n:
